@@ -76,10 +76,14 @@ class Flow(object):
         # type: () -> str
         return 'Flow({}, {})'.format(self.hint, self._names)
 
-    def add_name(self, name):
-        # type: (Name) -> None
+    def add_name(self, name, comprehension=False):
+        # type: (Name, bool) -> None
         name.scope = self.scope
-        if name.name in self.scope.globals:
+        if comprehension:
+            # a comprehension variable is local to the comprehension: it is neither
+            # a local of the enclosing scope nor subject to its global/nonlocal declarations
+            insert_loc(self._names, name)
+        elif name.name in self.scope.globals:
             self.scope.top.add_global(name)
         else:
             if name.name in self.scope.nonlocals:
